@@ -60,6 +60,8 @@ class Report:
         self.repo = units.REPO
 
     def rule(self, rid, template, text, floor=0, nontrivial=True):
+        from . import cfg as _cfg
+        _cfg.set_rule(rid)
         r = Rule(self, rid, template, text, floor, nontrivial)
         self.rules.append(r)
         return r
